@@ -16,7 +16,7 @@ type (
 	Cond      = sync.Cond
 )
 
-func NewCond(l Locker) *Cond { return sync.NewCond(l) }
+func NewCond(l Locker) *Cond   { return sync.NewCond(l) }
 func OnceFunc(f func()) func() { return sync.OnceFunc(f) }
 
 // Mutex yields before locking and blocks cooperatively when contended.
@@ -139,3 +139,7 @@ func (p *Pool) Put(x any) {
 
 // Len reports how many objects are stored (harness only).
 func (p *Pool) Len() int { p.mu.Lock(); defer p.mu.Unlock(); return len(p.items) }
+
+// generic helpers of package sync (no scheduling points needed: they wrap a Once)
+func OnceValue[T any](f func() T) func() T                     { return sync.OnceValue(f) }
+func OnceValues[T1, T2 any](f func() (T1, T2)) func() (T1, T2) { return sync.OnceValues(f) }
